@@ -165,6 +165,8 @@ def run_history(method, kname, dim, two, ops, periodic=False):
     get_config().use_openmp = False
     import pysph.base.kernels as K
     from pysph.tools.interpolator import Interpolator
+    from vlib.build import reset_group_counter
+    reset_group_counter()
     kernel = getattr(K, kname)(dim=dim)
     srcs = make_sources(dim, 0, two)
     tg = make_targets(dim, 0, periodic)
